@@ -104,7 +104,7 @@ func (t *NativeArrayTuple[T]) CloneArrayTuple(capacity int) ArrayTuple {
 }
 
 func (t *NativeArrayTuple[T]) SliceArrayTuple(from, to int) ArrayTuple {
-	n := (*t)[from:to]
+	n := (*t)[from:to:to]
 	return &n
 }
 
